@@ -124,7 +124,8 @@ impl Arb for ForgeSpec {
 
 impl Arb for SigMut {
     fn arb(u: &mut Unstructured<'_>) -> Result<Self> {
-        Ok(match u.int_in_range(0..=16u8)? {
+        Ok(match u.int_in_range(0..=17u8)? {
+            17 => SigMut::HintRunaway { bound: u.arbitrary()? },
             0 => SigMut::FlipBit(u.arbitrary()?),
             1 => SigMut::CtildeBit(u.arbitrary()?),
             2 => SigMut::SetZ { poly: u.arbitrary()?, idx: u.arbitrary()?, val: ZVal::arb(u)? },
